@@ -374,7 +374,7 @@ func chooseFunctionCalculator(parameters []*variants.Variant,
 	}
 	paramIndex := int(condition.AsInteger())
 
-	if paramCount < paramIndex+1 {
+	if paramIndex < 0 || paramCount < paramIndex+1 {
 		err := errors.NewExpressionError("", "WRONG_PARAM_COUNT",
 			"Expected at least "+strconv.Itoa(paramIndex+1)+" parameters", 0, 0)
 		return nil, err
